@@ -46,6 +46,24 @@ Example C17_unwrap_crlf_example :
   fasta_body_data (crlf (wrap_force 141 p 70 ++ [10])) = p.
 Proof. vm_compute. split; reflexivity. Qed.
 
+(* a whole record with CR LF line ends (crlf of what Fasta.WriteTo writes):
+   pars.Line takes the description without the CR LF, the body runs to the
+   next record, and the same description and residues come back; the parser
+   stops exactly at the next record *)
+Theorem C17_crlf_record : forall desc data post o e a k,
+  fasta_ok desc data -> stops post ->
+  exists o' e',
+    fasta_parser (mkst (crlf (fasta_format desc data) ++ post) o e a k) =
+    (Ok (desc, data), mkst post o' e' (a + zlen (crlf (fasta_format desc data))) k).
+Proof. exact fasta_record_crlf. Qed.
+Print Assumptions C17_crlf_record.
+
+Example C17_crlf_example :
+  let d := [115; 49] in let p := repeat 97 71 in
+  crlf (fasta_format d p) = [62; 115; 49; 13; 10] ++ repeat 97 70 ++ [13; 10; 97; 13; 10] /\
+  scan_fasta (crlf (fasta_format d p)) = Ok ([(d, p)], true).
+Proof. vm_compute. split; reflexivity. Qed.
+
 (* second sentence of the property: a GenBank record written as FASTA
    (gb_to_fasta = FastaWriter.WriteSeq with GenBankFields.String as the
    description) reads back as ONE record whose residues are the record's
